@@ -212,6 +212,27 @@ def run(repo, rep, tier):
               construct="table-entry-glued", detail="; ".join(
                   "%s:%d %s" % (g[0].relpath, g[1], g[2])
                   for g in glued_[:3]) or "%d word tables" % nt_)
+    bl = repo.func(LD + "ModuleLoader.build")
+    writes = [c for c in ast.walk(bl.node) if isinstance(c, ast.Call)
+              and src(c.func) == "temp.write" and c.args]
+    wtxt = [src(L.inline_locals(bl.node, c.args[0])) for c in writes]
+    rep.check(len(writes) == 2 and "coding" in wtxt[0] and
+              "encode" in wtxt[1] and "source" in wtxt[1], "R15.2",
+              bl.qualname, "a stored module starts with its own coding "
+              "line, then the source (the first line of the source -- in "
+              "debug mode a comment with the template's file name -- is "
+              "never read as the encoding declaration)",
+              construct="header-then-source", where=L.where(bl),
+              detail=str(wtxt))
+    gp = repo.func("chameleon.template.get_pkg_digest")
+    ups = [src(c.args[0]) for c in ast.walk(gp.node)
+           if isinstance(c, ast.Call) and isinstance(c.func, ast.Attribute)
+           and c.func.attr == "update" and c.args]
+    rep.check(any(u.startswith("name.") for u in ups) and any(
+        u.startswith("version.") for u in ups), "R15.1", gp.qualname,
+        "names and versions of the installed distributions both enter the "
+        "key", construct="package-digest-complete", where=L.where(gp),
+        detail=str(ups))
     L.state_rule(repo, rep)
 
 
